@@ -362,6 +362,16 @@ def par_eval(jobs, workers=4):
 HDR = "From Coq Require Import List ZArith.\nFrom Verif Require Import Rt.Registry Rt.RegistryAnon.\nImport ListNotations.\n"
 
 
+def parse_lines(out):
+    """JSON lines of a harness; a line damaged by interleaved stderr output (race detector reports) is skipped."""
+    got = []
+    for ln in out.split("\n"):
+        if not ln.startswith("{"): continue
+        try: got.append(json.loads(ln))
+        except ValueError: continue
+    return got
+
+
 def run(tier, seed):
     ck = Check("C10", tier, seed)
     ck.trusted += ["hand transcription of store.go/store_module_list.go/module_instance.go/runtime.go/builder.go into atomic steps (coq/Rt/Registry.v), tied by the correspondence runs",
@@ -391,7 +401,7 @@ def run(tier, seed):
     cases = []
     for mode in ("seq", "forced", "conc"):
         rc, out = sh([binp, "-seed", str(seed), "-mode", mode, "-nseq", str(nseq), "-nconc", str(nconc), "-nprog", str(nprog), "-limit", str(limit)], timeout=3000)
-        got = [json.loads(ln) for ln in out.split("\n") if ln.startswith("{")]
+        got = parse_lines(out)
         cases += got
         if rc != 0:
             if "concurrent map" in out and "interpreter.(*engine)" in out:
@@ -410,7 +420,7 @@ def run(tier, seed):
     if rbin:
         rrc, rout = sh([rbin, "-seed", str(seed + 7919), "-mode", "conc", "-nconc", str(nconc if quick else nconc // 4)],
                        timeout=3000, env=dict(GOENV, GORACE="halt_on_error=0 exitcode=0"))
-        race_cases = [json.loads(ln) for ln in rout.split("\n") if ln.startswith("{")]
+        race_cases = parse_lines(rout)  # race reports go to stderr and can cut a JSON line in two: such lines are dropped
         reports = re.findall(r"WARNING: DATA RACE.*?={18}", rout, re.S)
         race_note = "%d histories under -race in %.1fs, %d race reports" % (len(race_cases), time.time() - t0, len(reports))
         for rep in reports:
